@@ -142,9 +142,32 @@ func (c *Crit) Eval(tags map[string]*modelv1.TagValue) bool {
 
 // GenCriteria draws a criteria tree of the given depth over the tags; constants come from the values that
 // were actually written (and their neighbours), so predicates sit on the edges of pruning structures.
+// GenEq draws a single EQ condition on one of the allowed string/int tags with a written value.
+func GenEq(tp *simcore.Tape, tags []TagSpec, rows []map[string]*modelv1.TagValue, allow func(TagSpec) bool) *Crit {
+	var cands []TagSpec
+	for _, t := range tags {
+		if t.Name != "wid" && (t.Type == databasev1.TagType_TAG_TYPE_STRING || t.Type == databasev1.TagType_TAG_TYPE_INT) && (allow == nil || allow(t)) {
+			cands = append(cands, t)
+		}
+	}
+	if len(cands) == 0 || len(rows) == 0 {
+		return nil
+	}
+	t := cands[tp.Choose(len(cands))]
+	return &Crit{Tag: t.Name, Op: modelv1.Condition_BINARY_OP_EQ, Val: rows[tp.Choose(len(rows))][t.Name]}
+}
+
 func GenCriteria(tp *simcore.Tape, tags []TagSpec, rows []map[string]*modelv1.TagValue, depth int, allow func(TagSpec) bool) *Crit {
 	if depth > 0 && tp.Bool(2, 3) {
-		return &Crit{And: tp.Bool(1, 2), L: GenCriteria(tp, tags, rows, depth-1, allow), R: GenCriteria(tp, tags, rows, depth-1, allow)}
+		and := tp.Bool(1, 2)
+		l, r := GenCriteria(tp, tags, rows, depth-1, allow), GenCriteria(tp, tags, rows, depth-1, allow)
+		if l == nil {
+			return r
+		}
+		if r == nil {
+			return l
+		}
+		return &Crit{And: and, L: l, R: r}
 	}
 	var cands []TagSpec
 	for _, t := range tags {
